@@ -330,6 +330,31 @@ def _routing_scope(ctx: Ctx) -> List[FuncInfo]:
     return out
 
 
+def _wrapped_then_returned(f, flag: str) -> bool:
+    """`if <flag>: X = DOptional(X)` and every later way out returns X (nothing rebinds X in between)."""
+    for iff in walk_no_nested(f.node):
+        if not (isinstance(iff, ast.If) and norm(iff.test) == flag and not iff.orelse and len(iff.body) == 1):
+            continue
+        st = iff.body[0]
+        if not (isinstance(st, ast.Assign) and len(st.targets) == 1 and isinstance(st.targets[0], ast.Name) and isinstance(st.value, ast.Call)
+                and norm(st.value.func) == "DOptional" and len(st.value.args) == 1 and norm(st.value.args[0]) == st.targets[0].id):
+            continue
+        x = st.targets[0].id
+        later_rets = [r for r in walk_no_nested(f.node) if isinstance(r, ast.Return) and r.lineno > st.lineno]
+        # (stores in the else-branch of an if that encloses the wrapping are on other paths)
+        elsewhere = set()
+        child, par = iff, f.module.parents.get(iff)
+        while par is not None and par is not f.node:
+            if isinstance(par, ast.If) and any(child is b for b in par.body):
+                elsewhere |= {id(y) for b in par.orelse for y in ast.walk(b)}
+            child, par = par, f.module.parents.get(par)
+        later_stores = [n for n in walk_no_nested(f.node) if isinstance(n, ast.Name) and n.id == x and isinstance(n.ctx, ast.Store)
+                        and n.lineno > st.lineno and id(n) not in elsewhere]
+        if later_rets and all(r.value is not None and norm(r.value) == x for r in later_rets) and not later_stores:
+            return True
+    return False
+
+
 def rule_opt3(ctx: Ctx) -> RuleResult:
     rr = RuleResult("OPT-3", "an Optional member of a union hoists to an Optional result", floor=2)
     f = _ou(ctx)
@@ -365,6 +390,7 @@ def rule_opt3(ctx: Ctx) -> RuleResult:
                     iff = f.module.parents.get(r)
                     if isinstance(iff, ast.If) and norm(iff.test) == fv:
                         ok = True
+                ok = ok or _wrapped_then_returned(f, fv)
     # the flag assigned from the membership test itself: `optional = Null in types`
     for n in walk_no_nested(f.node):
         if isinstance(n, ast.Assign) and len(n.targets) == 1 and isinstance(n.targets[0], ast.Name) and isinstance(n.value, ast.Compare) \
@@ -377,6 +403,8 @@ def rule_opt3(ctx: Ctx) -> RuleResult:
                     iff = f.module.parents.get(r)
                     if isinstance(iff, ast.If) and norm(iff.test) == fv and r.lineno > n.lineno:
                         ok = True
+            if not others and _wrapped_then_returned(f, fv):
+                ok = True
     rr.ob(f.relpath, f.qualname, "if Null in types: optional = True ... if optional: return DOptional(meta_type)",
           "a Null candidate makes the simplified type Optional", DISCHARGED if ok else VIOLATED,
           "found" if ok else "Null candidates no longer lead to an Optional result", f.node.lineno)
@@ -392,7 +420,12 @@ def rule_nulldet(ctx: Ctx) -> RuleResult:
             rr.instances += 1
             iff = f.module.parents.get(n)
             t = norm(iff.test) if isinstance(iff, ast.If) else "?"
-            ok = t in (f"{v} is None", f"{v} == None")
+            ok = t in (f"{v} is None", f"{v} == None", f"type({v}) is type(None)", f"type({v}) is NoneType")
+            # the class of the value held in a local: `t = type(value)` ... `t is type(None)`
+            if not ok and isinstance(iff, ast.If) and isinstance(iff.test, ast.Compare) and len(iff.test.ops) == 1 and isinstance(iff.test.ops[0], ast.Is) \
+                    and isinstance(iff.test.left, ast.Name) and norm(iff.test.comparators[0]) in ("type(None)", "NoneType"):
+                ds = [d for d in walk_no_nested(f.node) if isinstance(d, ast.Assign) and any(norm(t_) == iff.test.left.id for t_ in d.targets)]
+                ok = len(ds) == 1 and norm(ds[0].value) == f"type({v})"
             rr.ob(f.relpath, f.qualname, f"if {t}: return Null", "a value is typed Null only if it is None", DISCHARGED if ok else VIOLATED,
                   "identity test against None" if ok else f"`{t}` also holds for other values (empty string, 0, False reach "
                   f"this branch as ordinary values): they would be treated as null and make the field Optional", n.lineno)
@@ -797,8 +830,16 @@ def rule_eq1(ctx: Ctx) -> RuleResult:
         for f in c.methods.get("__eq__", []):
             rr.instances += 1
             rets = [n for n in walk_no_nested(f.node) if isinstance(n, ast.Return) and n.value is not None]
-            okc = all(("type(other) is type(self)" in norm(r.value) or "super().__eq__" in norm(r.value) or
-                       "isinstance(other, dict)" in norm(f.node)) for r in rets)
+            def _typed(r) -> bool:
+                t_ = norm(r.value)
+                if "type(other) is type(self)" in t_ or "type(self) is type(other)" in t_ or "super().__eq__" in t_ or "isinstance(other, dict)" in norm(f.node):
+                    return True
+                # `False` (or NotImplemented) needs no test; a comparison dominated by the class test has it
+                if isinstance(r.value, ast.Constant) and r.value.value is False or t_ == "NotImplemented":
+                    return True
+                conds = dominating_conditions(f.module, r, f.node)
+                return ("type(other) Is type(self)", True) in conds or ("type(self) Is type(other)", True) in conds
+            okc = all(_typed(r) for r in rets)
             rr.ob(f.relpath, f.qualname, "; ".join(norm(r.value)[:50] for r in rets), "equal IR types have the same class",
                   DISCHARGED if okc else VIOLATED, "type identity conjoined" if okc else "equality ignores the class", f.node.lineno)
     # (a') what is compared is the content itself, not a projection of it
@@ -1385,6 +1426,10 @@ def rule_nf9(ctx: Ctx) -> RuleResult:
                             good_locals.add(tg.id)
                         elif isinstance(tg, ast.Subscript) and isinstance(tg.value, ast.Name):
                             good_locals.add(tg.value.id)
+                # D.setdefault(k, <simplified>) / D.update(...) / L.append(<simplified>) fill a local with simplified content as well
+                if isinstance(y, ast.Call) and isinstance(y.func, ast.Attribute) and isinstance(y.func.value, ast.Name) and \
+                        y.func.attr in ("setdefault", "append", "add") and y.args and calls_simplifier(y.args[-1]):
+                    good_locals.add(y.func.value.id)
         changed_ = True
         while changed_:
             changed_ = False
@@ -1433,6 +1478,11 @@ def rule_nf10(ctx: Ctx) -> RuleResult:
             if isinstance(m, ast.If) and f"isinstance({var}, DUnion)" in norm(m.test) and m.lineno >= n.lineno:
                 body_txt = " ".join(norm(b) for b in m.body)
                 if f"{var}.types" in body_txt or "_extract_nested_types" in body_txt:
+                    ok = True
+                # the union handed on as it is to the member generator, which iterates it (ComplexType.__iter__ yields the members)
+                if any(isinstance(c, ast.Call) and c.args and norm(c.args[0]) == var and norm(c.func).split(".")[-1] == g.name
+                       for b in m.body for c in ast.walk(b)) and ctx.prog.lookup_method(ctx.prog.cls(
+                        "json_to_models/dynamic_typing/complex.py", "ComplexType"), "__iter__"):
                     ok = True
     g, n, var = unwrap_sites[0]
     rr.ob(g.relpath, g.qualname, norm(n.test), st, DISCHARGED if ok else VIOLATED,
